@@ -496,3 +496,61 @@ def _completeness(oedges, images, version, m, family, k, end, demand_shared):
                   "copy kept every one of the {} links".format(
                       end, len(dist_neigh))))
   return probs
+
+
+# ---------------------------------------------------------------------------
+# binding of the model to data the repository's suite vouches for
+# ---------------------------------------------------------------------------
+
+SELFTEST_PAIRS = [
+    # (input, stored result, factor, policy) -- tests/test_api_multiplication.py
+    ("l1", "l1.m2", 2, "auto"), ("l2", "l2.m2", 2, "auto"),
+    ("l2", "l2.m2.no_ld", 2, "off"), ("l2", "l2.m3", 3, "auto"),
+    ("l2", "l2.m3.no_ld", 3, "off"), ("l3", "l3.m2", 2, "auto"),
+    ("l3", "l3.m2.no_ld", 2, "off"), ("l2", "l2.m2", 2, "equal"),
+    ("l3", "l3.m2.no_ld", 2, "equal"), ("l2", "l2.m2.no_ld", 2, "L"),
+    ("l2", "l2.m2", 2, "R"),
+]
+
+
+def selftest(testdata_dir):
+  """The stored results of the repository's multiplication tests must be
+  accepted by judge_multiply, and simple corruptions of them must be
+  rejected.  Returns (number of stored pairs accepted, list of failures)."""
+  import os
+  fails = []
+  n = 0
+  for sfx, version in (("gfa", "gfa1"), ("gfa2", "gfa2")):
+    for a, b, k, pol in SELFTEST_PAIRS:
+      fa = os.path.join(testdata_dir, "links_distri.{}.{}".format(a, sfx))
+      fb = os.path.join(testdata_dir, "links_distri.{}.{}".format(b, sfx))
+      if not (os.path.exists(fa) and os.path.exists(fb)):
+        continue
+      before = [l for l in open(fa).read().split("\n") if l]
+      after = [l for l in open(fb).read().split("\n") if l]
+      # the stored results were made with track_origin: drop the or tag
+      after = ["\t".join(f for f in l.split("\t") if not f.startswith("or:Z:"))
+               for l in after]
+      probs, end, fam = judge_multiply(before, after, version, "1", k, None,
+                                       pol)
+      n += 1
+      if probs:
+        fails.append((a, b, sfx, pol, probs[:2]))
+      # corruption 1: a copy of the segment removed together with its links
+      cut = [l for l in after if "1*2" not in l]
+      if not judge_multiply(before, cut, version, "1", k, None, pol)[0]:
+        fails.append((a, b, sfx, pol, "corruption (copy removed) accepted"))
+      # corruption 2: a link of the original moved to a new segment ZZ
+      edge = "L" if version == "gfa1" else "E"
+      other = [r.pos[0] for r in parse(after, version)
+               if r.rt == "S" and r.pos[0] not in fam][0]
+      bad = list(after)
+      for i, l in enumerate(bad):
+        if l.startswith(edge + "\t") and other in l:
+          bad[i] = l.replace(other, "ZZ")
+          break
+      bad.insert(1, [l for l in after if l.startswith("S\t" + other + "\t")][0]
+                 .replace(other, "ZZ"))
+      if not judge_multiply(before, bad, version, "1", k, None, pol)[0]:
+        fails.append((a, b, sfx, pol, "corruption (invented link) accepted"))
+  return n, fails
